@@ -466,7 +466,38 @@ func (t tapeReader) Read(p []byte) (int, error) { return t.r.Read(p) }
 func run(c *hc.Ctx) error {
 	r := c.Rng
 	var cs []cmp
-	add := func(line, impl string) { cs = append(cs, cmp{line, impl}) }
+	var drvErr error
+	var drvTime time.Duration
+	flush := func() { // model answers for the collected requests (in chunks, to bound memory)
+		if len(cs) == 0 || drvErr != nil {
+			cs = cs[:0]
+			return
+		}
+		t := time.Now()
+		lines := make([]string, len(cs))
+		for i, x := range cs {
+			lines[i] = x.line
+		}
+		outs, err := c.Drv.Batch(lines)
+		if err != nil {
+			drvErr = err
+			cs = cs[:0]
+			return
+		}
+		for i, o := range outs {
+			if c.Compare(cs[i].line, cs[i].impl, o) {
+				c.Res.TracesValidated++
+			}
+		}
+		cs = cs[:0]
+		drvTime += time.Since(t)
+	}
+	add := func(line, impl string) {
+		cs = append(cs, cmp{line, impl})
+		if len(cs) >= 40000 {
+			flush()
+		}
+	}
 
 	// ---- 1. CheckGP on every safe prime below the bound × g ∈ −1..9  (exhaustive grid)
 	bound := c.N(200_000, 3_000_000)
@@ -666,9 +697,9 @@ func run(c *hc.Ctx) error {
 		}
 		pqs = append(pqs, pqCase{new(big.Int).Mul(a, b), a, b, kind})
 	}
-	if c.Thorough() { // every pair of the table (incl. squares): 2 001 000 semiprimes
-		for i := range small {
-			for j := i; j < len(small); j++ {
+	if c.Thorough() { // every pair of the first 700 primes (incl. squares): 245 350 semiprimes
+		for i := 0; i < 700; i++ {
+			for j := i; j < 700; j++ {
 				mk(big.NewInt(int64(small[i])), big.NewInt(int64(small[j])), "table")
 			}
 		}
@@ -720,8 +751,12 @@ func run(c *hc.Ctx) error {
 		n := big.NewInt(int64(hc.Pick(r, 8, 12, 30, 2*3*5*7, 1001, 3*3*3, 2*2*2*2, 255255, r.Range(4, 5000)*2)))
 		pqs = append(pqs, pqCase{n: n, kind: "composite"})
 	}
-	const tapeWords = 40
 	for _, pc := range pqs {
+		// 20 outer rounds for small n (where one round fails with noticeable probability), 8 otherwise
+		tapeWords := 40
+		if pc.n.BitLen() > 20 {
+			tapeWords = 16
+		}
 		words := tapeWords
 		if r.Chance(3) {
 			words = r.Intn(4)
@@ -773,22 +808,10 @@ func run(c *hc.Ctx) error {
 	c.Res.Rule = "CheckGP: exhaustive grid (every safe prime below the bound × g∈−1..9; non-trivial = p>7 and g∈2..7, judged by Euler's criterion) + arbitrary p; " +
 		"CheckDH: every 2048-bit safe prime of the fixed table × g∈−1..9 and near misses (p+2, 2047/2049 bits, negated, random, non-safe prime, 2^2047, 2^2048±…); " +
 		"CheckDHParams: g, g_a, g_b drawn from {−1..3, p−3..p+1, 2^1984±2, p−2^1984±2, random inside both margins, random, negative} for table primes, random 2048-bit and degenerate moduli; " +
-		"DecomposePQ: semiprimes of the 2000-prime table (all pairs in thorough), 8..24-bit prime pairs, 63-bit semiprimes, the documentation vector, with a 40-word random tape (non-trivial = semiprime with a full tape); distinct = distinct request line"
-	c.PartialNote("primality inside CheckDH is Go's ProbablyPrime(64): the model takes its two answers as oracle inputs; termination of DecomposePQ is probabilistic and only exercised (40-word tape)")
+		"DecomposePQ: semiprimes of the 2000-prime table (quick: 3000 sampled; thorough: all 245350 pairs of its first 700 primes), 8..24-bit prime pairs, 63-bit semiprimes, the documentation vector, with a 40-word (n < 2^20) or 16-word random tape (non-trivial = semiprime with a full tape); distinct = distinct request line"
+	c.PartialNote("primality inside CheckDH is Go's ProbablyPrime(64): the model takes its two answers as oracle inputs; termination of DecomposePQ is probabilistic and only exercised (20 or 8 outer rounds)")
 
-	lines := make([]string, len(cs))
-	for i, x := range cs {
-		lines[i] = x.line
-	}
-	outs, err := c.Drv.Batch(lines)
-	if err != nil {
-		return err
-	}
-	lap("model driver")
-	for i, o := range outs {
-		if c.Compare(cs[i].line, cs[i].impl, o) {
-			c.Res.TracesValidated++
-		}
-	}
-	return nil
+	flush()
+	c.Note("time model driver: %.1fs", drvTime.Seconds())
+	return drvErr
 }
